@@ -72,13 +72,13 @@ func ParseHeaderDirective(header http.Header) *HeaderDirectives {
 		value := values[0] // Header.Get also uses the first value, so we do the same here
 		switch key {
 		case "If-Modified-Since":
-			if t, err := time.Parse(http.TimeFormat, value); err == nil {
+			if t, err := http.ParseTime(value); err == nil {
 				hd.IfModifiedSince.value = typeutils.Some(t)
 			} else {
 				slog.Debug("Error parsing If-Modified-Since header", "error", err, "value", value)
 			}
 		case "If-Unmodified-Since":
-			if t, err := time.Parse(http.TimeFormat, value); err == nil {
+			if t, err := http.ParseTime(value); err == nil {
 				hd.IfUnmodifiedSince.value = typeutils.Some(t)
 			} else {
 				slog.Debug("Error parsing If-Unmodified-Since header", "error", err, "value", value)
@@ -93,7 +93,7 @@ func ParseHeaderDirective(header http.Header) *HeaderDirectives {
 			}
 		case "If-Range":
 			if value != "" {
-				if t, err := time.Parse(http.TimeFormat, value); err == nil {
+				if t, err := http.ParseTime(value); err == nil {
 					timeIfRange := typeutils.Right[eTag](t)
 					hd.IfRange.value = typeutils.Some(timeIfRange)
 					continue
@@ -119,7 +119,7 @@ func ParseHeaderDirective(header http.Header) *HeaderDirectives {
 				hd.CacheControl.value = typeutils.Some(cacheControl{noCache: true})
 			}
 		case "Expires":
-			if t, err := time.Parse(http.TimeFormat, value); err == nil {
+			if t, err := http.ParseTime(value); err == nil {
 				hd.Expires.value = typeutils.Some(t)
 			} else {
 				// An invalid date (especially "0") represents a time in the past, i.e. already expired (RFC 9111 section 5.3)
